@@ -52,14 +52,79 @@ Fixpoint msrun (st : msstate) (l : list msobs) (i : N) (bad : list N) : list N :
     end
   end.
 
+(* Block steps (catch-up layer, chainntnfs.HandleMissedBlocks / RewindChain): ONE observed
+   call of the real code stands for a canonical in-order SEQUENCE of TxNotifier calls (the
+   disconnects down to the common ancestor); the events of the whole sequence and the hints
+   after it are compared.  The first error aborts the block, as RewindChain does. *)
+Fixpoint mcsteps (st : mcstate) (ops : list mcop) (r : res) (acc : mcevs)
+  : option (mcstate * res * mcevs) :=
+  match ops with
+  | [] => Some (st, r, acc)
+  | o :: rest =>
+    match mcstep st o with
+    | None => None
+    | Some (st', r', ev) =>
+      match r' with
+      | RErr _ => Some (st', r', acc ++ ev)
+      | ROk _ => mcsteps st' rest r' (acc ++ ev)
+      end
+    end
+  end.
+
+Fixpoint mssteps (st : msstate) (ops : list msop) (r : res) (acc : msevs)
+  : option (msstate * res * msevs) :=
+  match ops with
+  | [] => Some (st, r, acc)
+  | o :: rest =>
+    match msstep st o with
+    | None => None
+    | Some (st', r', ev) =>
+      match r' with
+      | RErr _ => Some (st', r', acc ++ ev)
+      | ROk _ => mssteps st' rest r' (acc ++ ev)
+      end
+    end
+  end.
+
+Definition mcbobs := (list mcop * res * mcevs * list (option N))%type.
+Definition msbobs := (list msop * res * msevs * list (option N))%type.
+
+Fixpoint mcbrun (st : mcstate) (l : list mcbobs) (i : N) (bad : list N) : list N :=
+  match l with
+  | [] => rev bad
+  | (os, r, ev, hn) :: rest =>
+    match mcsteps st os (ROk None) [] with
+    | None => rev (i :: bad)
+    | Some (st', r', ev') =>
+      let ok := res_eqb r r' && mcevs_agree ev' ev && hints_ok (m_hint st') hn 0 in
+      mcbrun st' rest (i + 1) (if ok then bad else i :: bad)
+    end
+  end.
+
+Fixpoint msbrun (st : msstate) (l : list msbobs) (i : N) (bad : list N) : list N :=
+  match l with
+  | [] => rev bad
+  | (os, r, ev, hn) :: rest =>
+    match mssteps st os (ROk None) [] with
+    | None => rev (i :: bad)
+    | Some (st', r', ev') =>
+      let ok := res_eqb r r' && msevs_agree ev' ev && hints_ok (ms_hint st') hn 0 in
+      msbrun st' rest (i + 1) (if ok then bad else i :: bad)
+    end
+  end.
+
 Inductive mtcase :=
 | TMConf (start lim : N) (h0 : list (option N)) (l : list mcobs)
-| TMSpend (start lim : N) (h0 : list (option N)) (l : list msobs).
+| TMSpend (start lim : N) (h0 : list (option N)) (l : list msobs)
+| TMConfB (start lim : N) (h0 : list (option N)) (l : list mcbobs)
+| TMSpendB (start lim : N) (h0 : list (option N)) (l : list msbobs).
 
 Definition mcheck_case (c : mtcase) : list N :=
   match c with
   | TMConf start lim h0 l => mcrun (init_mc start lim (hint_fun h0)) l 0 []
   | TMSpend start lim h0 l => msrun (init_ms start lim (hint_fun h0)) l 0 []
+  | TMConfB start lim h0 l => mcbrun (init_mc start lim (hint_fun h0)) l 0 []
+  | TMSpendB start lim h0 l => msbrun (init_ms start lim (hint_fun h0)) l 0 []
   end.
 
 Fixpoint mmismatches (cases : list mtcase) (i : N) : list (N * list N) :=
